@@ -141,7 +141,7 @@ def transient_init():
     _TRANSIENT["registered"] = True
 
 
-def run_transient_series(rng, obs, on_step):
+def run_transient_series(rng, obs, on_step, heating_only=False, modes=("MF_DT", "MF_TR", "QE_MF")):
     """A transient heat time series with load profiles on a passive mesh or a heating loop; *on_step(net)* is called after every
     pipeflow of the series.  Start pressures differ from every prescribed pressure (they must not leak into later steps)."""
     import pandas as pd
@@ -149,19 +149,23 @@ def run_transient_series(rng, obs, on_step):
     from pandapower.timeseries import DFData
     from pandapipes.timeseries import run_timeseries
     from pvmon import netgen
-    if rng.random() < 0.5:
+    if rng.random() < 0.5 and not heating_only:
         spec = netgen.gen_thermal_mesh(rng, two_feeders=False, max_sections=2)
     else:
-        spec = netgen.gen_heating(rng, modes=["MF_DT", "MF_TR", "QE_MF"], source=str(rng.choice(["cpp", "cpm", "grid"])), max_sections=2, exchangers=False)
+        spec = netgen.gen_heating(rng, modes=list(modes), source=str(rng.choice(["cpp", "cpm", "grid"])), max_sections=2, exchangers=False)
     for j in spec["junctions"]:
         j["pn_bar"] = float(rng.uniform(1.0, 4.0))
     net = netgen.build(spec)
     steps = int(rng.integers(3, 6))
-    for t, col in (("sink", "mdot_kg_per_s"), ("heat_consumer", "controlled_mdot_kg_per_s")):
-        if t in net and len(net[t]):
+    import numpy as np
+    for t, col, lo, hi in (("sink", "mdot_kg_per_s", 0.4, 1.5), ("heat_consumer", "controlled_mdot_kg_per_s", 0.4, 1.5),
+                           ("heat_consumer", "qext_w", 0.5, 1.3), ("heat_consumer", "deltat_k", 0.6, 1.4), ("heat_consumer", "treturn_k", 0.97, 1.02)):
+        if t in net and len(net[t]) and col in net[t].columns:
             base = net[t][col].values.astype(float)
-            df = pd.DataFrame({int(i): b * rng.uniform(0.4, 1.5, steps) for i, b in zip(net[t].index, base)})
-            ConstControl(net, t, col, list(net[t].index), profile_name=list(df.columns), data_source=DFData(df))
+            idx = [int(i) for i, b in zip(net[t].index, base) if not np.isnan(b)]     # only the quantities the user prescribed
+            if idx:
+                df = pd.DataFrame({i: float(net[t].at[i, col]) * rng.uniform(lo, hi, steps) for i in idx})
+                ConstControl(net, t, col, idx, profile_name=list(df.columns), data_source=DFData(df))
     opts = {"mode": str(rng.choice(["sequential", "bidirectional"])), "use_numba": bool(rng.random() < 0.5)}
     _TRANSIENT["on_step"] = on_step
     try:
